@@ -84,6 +84,7 @@ PSET_EXACT = {
     "core::num::nonzero::NonZero::<T>::new_unchecked",
     "core::iter::traits::iterator::Iterator::max_by", "alloc::slice::<impl [T]>::concat",
     "core::time::Duration::new", "std::time::Instant::duration_since",
+    "core::fmt::rt::Argument::<'_>::from_usize",
     "alloc::vec::from_elem", "alloc::vec::Vec::<T>::with_capacity", "alloc::string::String::with_capacity", "alloc::vec::Vec::<T, A>::reserve",
 }
 PSET_RE = re.compile(r"^core::num::<impl [iu](8|16|32|64|128|size)>::(pow|abs|div_euclid|rem_euclid|next_power_of_two|isqrt|ilog|ilog2|ilog10)$")
@@ -429,6 +430,53 @@ def clap_groups(chk, rule):
         chk.ob(rule, "clap-group-field(%s.%s)/optional" % (adt.split("::")[-1], fld), tys.get(fld) == ty, "", "field type %s" % tys.get(fld), nontrivial=False)
 
 
+def precision_bound(chk, rule):
+    """the reviewed rows of the three `{:.precision$}` sites rely on the CLI bounding every precision to <= u16::MAX"""
+    prog = chk.prog
+    pp = chk.fn("sfs::parse_precision")
+    if pp is None:
+        return
+    # Ok(..) is only constructed under precision <= 65535
+    oks = [b for b, i, p, rv, s in pp.assigns() if p[0] == 0 and rv["k"] == "aggregate" and rv.get("variant") == "Ok"]
+    good = False
+    for sb, st in pp.switches():
+        s = an.switch_subject(pp, sb)
+        if s["kind"] == "value" and s["root"] is not None:
+            d = pp.single_def(s["root"])
+            if d and d[0] == "assign" and d[3]["k"] == "binop" and d[3]["op"] in ("Le", "Lt"):
+                rl = op_local(d[3]["r"])
+                rd = pp.single_def(pp.copy_root(rl)) if rl is not None else None
+                bound = None
+                if rd and rd[0] == "call":
+                    c = an.const_of(pp, rd[2]["args"][0])
+                    bound = c.get("val") if c else None
+                else:
+                    c = an.const_of(pp, d[3]["r"])
+                    bound = c.get("val") if c else None
+                lim = 65535 if d[3]["op"] == "Le" else 65536
+                if isinstance(bound, int) and bound <= lim and oks and all(an.dominated_by_edge(pp, sb, st["otherwise"], b) for b in oks):
+                    good = True
+    chk.ob(rule, "parse_precision/Ok-only-below-65536", good, pp.loc(), "parse_precision returns Ok(p) only when p <= u16::MAX")
+    users = set()
+    for f in prog.fn_list:
+        for b, t in f.calls():
+            for o in t["args"]:
+                if o["k"] == "const" and o.get("fn") == "sfs::parse_precision":
+                    io = f.impl_of or {}
+                    if f.name == "augment_args":
+                        users.add(io.get("self_adt"))
+    want = {"sfs::create::Create", "sfs::fold::Fold", "sfs::stat::Stat", "sfs::view::View"}
+    chk.ob(rule, "precision-options/use-parse_precision", users == want, "", "every --precision option is parsed by parse_precision (structs %s)" % sorted(users))
+    # who hands a precision to the writer / formatter: only CLI fields or constants
+    srcs = []
+    for f, b, t in prog.callers_of("sfs_core::spectrum::io::write::Builder::set_precision"):
+        sl, info = f.slice_locals(t["args"][1])
+        flds = sorted(fl for (a_, fl) in info["fields"])
+        srcs.append((f.path.split("::")[-2], flds))
+    ok = all(set(fl) <= {"precision", "project"} for _, fl in srcs) and len(srcs) == 3
+    chk.ob(rule, "set_precision/callers-pass-CLI-precision", ok, "", "set_precision is called with the parsed option (or const 0) only: %s" % srcs)
+
+
 def check_C17(chk):
     import rules_create as RC
     chk.explanation = (
@@ -450,6 +498,7 @@ def check_C17(chk):
         chk.fns_analysed.add(f.path)
     res, auto = inventory(chk, "C17.d", fns, rows, "reachable from main")
     clap_groups(chk, "C17.e")
+    precision_bound(chk, "C17.f")
     # stale rows (sites that disappeared) are harmless; count them for the evidence
     live = set(res)
     unreach_rows = [k for k in rows if k not in live]
@@ -463,6 +512,7 @@ def check_C17(chk):
     chk.floor("C17.c", 38)
     chk.floor("C17.d", 120)
     chk.floor("C17.e", 4)
+    chk.floor("C17.f", 3)
     chk.ob("C17.d", "reachability/floor", len(fns) >= 800, "", "%d of %d workspace function bodies are reachable from main in the over-approximate call graph (floor 800)" % (len(fns), len(prog.fn_list)), nontrivial=False)
 
 
